@@ -29,10 +29,10 @@ func samGroups(sc *SamCase) []samGroup {
 }
 
 const (
-	cellNone = iota // no record covers the column
-	cellDel         // some record deletes it, none aligns a base to it
-	cellBase        // exactly one distinct base aligned
-	cellConflict    // two different bases aligned
+	cellNone     = iota // no record covers the column
+	cellDel             // some record deletes it, none aligns a base to it
+	cellBase            // exactly one distinct base aligned
+	cellConflict        // two different bases aligned
 )
 
 type cell struct {
